@@ -375,12 +375,18 @@ def run_history(rec, case):
     acts, script, hcfg = gen_actions(rng)
     rec.evaluations += 1
     T = Side('T', script, hcfg)
-    A = Side('A', script, hcfg)
+    # the asyncio server is observed behind the real ASGI adapter or, in a
+    # share of the histories, behind the real aiohttp adapter and web server
+    A = Side(case.get('aio', 'A'), script, hcfg)
+    if case.get('aio'):
+        rec.count('histories_on_aiohttp_adapter')
     if hcfg:
         rec.count('histories_with_odd_handlers')
 
     def V(key, msg):
-        rec.viol(key, msg + ' ; handlers %r' % (hcfg,),
+        rec.viol(key, msg + ' ; handlers %r%s' % (
+            hcfg, ' ; asyncio server behind the aiohttp adapter'
+            if case.get('aio') else ''),
                  dict(case, actions=acts[:80]))
     timed_seen = set()
     T.timed = A.timed = timed_seen
@@ -413,6 +419,16 @@ def run_history(rec, case):
                     timed_seen.update(timed)
                     x = [e for e in x if e[0] not in timed]
                     y = [e for e in y if e[0] not in timed]
+                if stream == 'status' and case.get('aio'):
+                    # aiohttp's router answers methods the adapter did not
+                    # register (anything but GET / POST / OPTIONS) with its
+                    # own 405 before the server sees them: both are refusals
+                    def norm(e):
+                        if e[0] not in ('GET', 'POST', 'OPTIONS', 'WS') and \
+                                e[1] in (400, 405):
+                            return (e[0], 'refused', e[2])
+                        return e
+                    x, y = [norm(e) for e in x], [norm(e) for e in y]
                 if stream == 'calls' and any(c[1] == 'pending'
                                              for c in x + y):
                     # how long a call stays inside a suspended disconnect
@@ -456,6 +472,8 @@ def run_shard(spec):
     rec = Rec()
     cases = [{'seed': spec['seed'], 'i': spec['shard'] * 1000000 + k}
              for k in range(spec['n'])]
+    for c in cases[::4]:
+        c['aio'] = 'H'
     scen.run_cases(rec, cases, run_history)
     return rec.result()
 
